@@ -146,8 +146,9 @@ theorem count_allIds (a : Nat) : ∀ e : Expr, (allIds e).count a = (outerIds e)
   | .display i es => by
       have := count_allIdsList a es
       simp only [allIds, outerIds, innerIds, List.count_cons, List.count_append]; omega
-  | .comp i _ inner => by
-      simp only [allIds, outerIds, innerIds, List.count_cons, List.count_nil]; omega
+  | .comp i _ first inner => by
+      have := count_allIds a first
+      simp only [allIds, outerIds, innerIds, List.count_cons, List.count_append]; omega
   | .starred i e => by
       have := count_allIds a e
       simp only [allIds, outerIds, innerIds, List.count_cons, List.count_append]; omega
